@@ -139,8 +139,26 @@ def _em_set(w, o):
 @op("new_reck")
 def _new_reck(w, o):
     em = None if o.get("em") is None else w.get("em", o["em"])
-    r = w.call(itf.Reck, em) if not o.get("raw") else w.call(itf.Reck, o.get("value"))
+    if o.get("raw"):
+        r = w.call(itf.Reck, o.get("value"))
+    elif em is None and not o.get("explicit_none"):
+        r = w.call(itf.Reck)          # argument omitted, as most callers do
+    else:
+        r = w.call(itf.Reck, em)
     w.put("reck", o["out"], r, em=o.get("em"))
+
+
+@op("reck_em_set")
+def _reck_em_set(w, o):
+    """In-place configuration of the error model a Reck object carries."""
+    r = w.get("reck", o["r"])
+    d = w.get("dist", o["d"])
+    w.call(setattr, r.error_model, o["attr"], d)
+    m = w.m("reck", o["r"])
+    if m.get("em") is not None and w.has("em", m["em"]):
+        w.m("em", m["em"])[o["attr"]] = o["d"]
+    else:
+        m.setdefault("own", {})[o["attr"]] = o["d"]
 
 
 @op("reck_map")
@@ -182,6 +200,8 @@ class Mapper(Client):
             o = {"op": "new_reck", "out": w.new_id("reck")}
             if ems and r.random() < 0.75:
                 o["em"] = self.pick(ems)
+            elif r.random() < 0.3:
+                o["explicit_none"] = True
             return o
         k = r.choice(["map", "map", "map", "map", "new_dist", "new_em",
                       "em_set", "em_set", "draw", "reseed", "script", "remap",
@@ -221,6 +241,13 @@ class Mapper(Client):
             if len(w.pool["em"]) >= 3:
                 return None
             return {"op": "new_errmodel", "out": w.new_id("em")}
+        if k == "em_set" and w.pool["dist"] and r.random() < 0.3:
+            # configure the model a Reck object carries, in place
+            attr = r.choice(["bs_reflectivity", "loss", "phase_offset"])
+            ds = [d for d in w.pool["dist"] if w.meta["dist"][d].get("role") == attr]
+            if ds:
+                return {"op": "reck_em_set", "r": self.pick(list(w.pool["reck"])),
+                        "attr": attr, "d": self.pick(ds)}
         if k == "em_set":
             ems, ds = list(w.pool["em"]), list(w.pool["dist"])
             if not ems:
@@ -414,10 +441,13 @@ class ReckMonitor(Monitor):
         w = self.w
         em_id = w.meta["reck"][reck_id].get("em")
         if em_id is None or not w.has("em", em_id):
-            return ("default",), {"bs_reflectivity": ("constant", 0.5),
-                                  "loss": ("constant", 0),
-                                  "phase_offset": ("constant", 0)}, True
-        m = w.meta["em"][em_id]
+            m = w.meta["reck"][reck_id].get("own") or {}
+            if not m:
+                return ("default",), {"bs_reflectivity": ("constant", 0.5),
+                                      "loss": ("constant", 0),
+                                      "phase_offset": ("constant", 0)}, True
+        else:
+            m = w.meta["em"][em_id]
         descs, ids = {}, []
         defaults = {"bs_reflectivity": ("constant", 0.5), "loss": ("constant", 0),
                     "phase_offset": ("constant", 0)}
